@@ -2,5 +2,5 @@ use tgv_lsp::*;
 
 fn main() {
     tgv_ide::ws::clean_env();
-    tgv_core::main_for(&[&c09::C09, &c10::C10, &c11::C11, &c11::C12]);
+    tgv_core::main_for(&[&c08::C08, &c09::C09, &c10::C10, &c11::C11, &c11::C12]);
 }
